@@ -44,7 +44,10 @@ Edits ==
     \cup { [kind |-> "del", chain |-> c, pos |-> p] :
              c \in KCh \cup {"cali-a"} \cup (IF Rich >= 1 THEN {"cali-b"} ELSE {}), p \in {1} \cup (IF Rich >= 1 THEN {2} ELSE {}) }
     \cup { [kind |-> "swap", chain |-> c] : c \in {"cali-a"} \cup (IF Rich >= 1 THEN KCh ELSE {}) }
-    \cup { [kind |-> "restamp", chain |-> c] : c \in KCh \cup (IF Rich >= 1 THEN {"cali-a"} ELSE {}) }
+    \cup { [kind |-> "restamp", chain |-> c, pos |-> p] : c \in KCh \cup (IF Rich >= 1 THEN {"cali-a"} ELSE {}), p \in {1} }
+    \cup { [kind |-> "restamp", chain |-> "cali-a", pos |-> 9] }
+    \cup { [kind |-> "replace", chain |-> c, pos |-> 9, rule |-> r] :
+             c \in {"cali-a"} \cup (IF Rich >= 1 THEN KCh \cup {"cali-b"} ELSE {}), r \in {st(4, "")} \cup (IF Rich >= 1 THEN {f(7)} ELSE {}) }
     \cup { [kind |-> "flush", chain |-> c] : c \in IF Rich >= 1 THEN DesChains ELSE {} }
     \cup { [kind |-> "delchain", chain |-> c] : c \in {"cali-a"} \cup (IF Rich >= 1 THEN {"cali-b"} ELSE {}) }
     \cup { [kind |-> "addchain", chain |-> c, rules |-> rs] :
@@ -56,6 +59,7 @@ Edits ==
 \* edits made while an Apply is running (a subset, to keep the generator's branching down)
 PreEdits == IF Rich >= 2 THEN Edits
             ELSE { e \in Edits : \/ e.kind = "ins" /\ e.chain \in KCh /\ e.pos = 0
+                                 \/ e.kind = "replace" /\ e.chain = "cali-a" /\ e.rule.h # ""
                                  \/ e.kind = "del" /\ e.pos = 1
                                  \/ e.kind = "addchain" /\ e.chain = "cali-old" }
 
@@ -65,9 +69,14 @@ EditFn(k, e) ==
            IF c \in DOMAIN k THEN Put(k, c, InsertAt(k[c], IF e.pos > Len(k[c]) THEN Len(k[c]) ELSE e.pos, e.rule)) ELSE k
       [] e.kind = "del" -> IF c \in DOMAIN k /\ e.pos <= Len(k[c]) THEN Put(k, c, RemoveAt(k[c], e.pos)) ELSE k
       [] e.kind = "swap" -> IF c \in DOMAIN k /\ Len(k[c]) >= 2 THEN Put(k, c, Swap12(k[c])) ELSE k
-      [] e.kind = "restamp" ->      \* same rule, hash of another Felix generation
-           IF c \in DOMAIN k /\ Len(k[c]) >= 1 /\ k[c][1].h # ""
-             THEN Put(k, c, <<[k[c][1] EXCEPT !.h = "STALE"]>> \o Tail(k[c])) ELSE k
+      [] e.kind = "restamp" ->      \* same rule, hash of another Felix generation (pos 9 = last rule)
+           LET p == IF e.pos = 9 THEN Len(k[c]) ELSE e.pos IN
+           IF c \in DOMAIN k /\ Len(k[c]) >= 1 /\ p <= Len(k[c]) /\ k[c][p].h # ""
+             THEN Put(k, c, [k[c] EXCEPT ![p] = [@ EXCEPT !.h = "STALE"]]) ELSE k
+      [] e.kind = "replace" ->      \* another rule in the place of an existing one (pos 9 = last rule)
+           LET p == IF e.pos = 9 THEN Len(k[c]) ELSE e.pos IN
+           IF c \in DOMAIN k /\ Len(k[c]) >= 1 /\ p <= Len(k[c]) /\ \A i \in 1..Len(k[c]) : k[c][i] # e.rule
+             THEN Put(k, c, [k[c] EXCEPT ![p] = e.rule]) ELSE k
       [] e.kind = "flush" -> IF c \in DOMAIN k THEN Put(k, c, <<>>) ELSE k
       [] e.kind = "delchain" -> Drop(k, c)
       [] e.kind = "addchain" -> Put(k, c, e.rules)
